@@ -17,7 +17,7 @@ FUNCTIONS = ["_StereoMixin.__eq__", "_StereoMixin.__hash__", "_StereoMixin.inver
              "_StereoMixin._inverted_atoms", "PERMUTATION_GROUP/inversion tables of the six classes"]
 BOUNDS = {"quick": "identifier values unbounded (symbolic ints, pairwise distinct); all orderings of all six classes (24/24/120/720/48/48), "
                    "all parity pairs; placeholder patterns: none, one None (each ligand position class), two None (first pattern); "
-                   "hash: ids from {-7,0,1,2,5,2^40,..}",
+                   "hash: ids from {-7,0,1,2,5,2^40,..}, identifier 0 on every position relative to the placeholders",
           "thorough": "as quick plus every one- and two-placeholder pattern for every class"}
 OUTSIDE = "more than two placeholders; parities outside the class' declared domain (e.g. Tetrahedral with parity 0)"
 ASSUMPTIONS = ["idealised figures of vp/lib/oracle.py encode the position semantics stated in the class docstrings and used by xyz2graph.py",
@@ -168,6 +168,25 @@ def c_invert_{kind}_{tag}({args}, p: int) -> bool:
     return ok
 
 
+def c_invert_used_{kind}_{tag}({args}, p: int) -> bool:
+    """
+{pre_dist}    pre: p in {pvals}
+    post: _
+    """
+    # the descriptor has been compared before it is inverted (state an instance may have accumulated must not leak into the mirror image)
+    a = ({tup},)
+    t = D(a, p)
+    w = D(a, p)
+    m = D(a, -p)
+    ok = (t == w) and (w == t) and ((t == m) == (m == t))
+    i1 = t.invert()
+    i2 = i1.invert()
+    ok = ok and (i2 == t) and (i2 == w) and (w == i2) and (i1 == m) and (m == i1)
+    if {chiral!r} and not {achiral_by_dup!r}:
+        ok = ok and not (i1 == t) and not (t == i1) and not (i1 == w) and not (w == i1) and not (i2 == m)
+    return ok
+
+
 def c_invert_none_{kind}_{tag}({args}) -> bool:
     """
 {pre_dist}    post: _
@@ -256,7 +275,8 @@ def hash_body(kind, pat, k, p, q, idv):
     pa = pv[p] if p < len(pv) else None
     pb = pv[q] if q < len(pv) else None
     n = oracle.ARITY[kn]
-    ids = IDS[idv:] + IDS[:idv]
+    ids = [x for x in IDS if x != 0]
+    ids.insert(idv, 0)          # idv = position of the identifier 0 (falsy, sorts before the other positive identifiers, equals False)
     a = tuple(None if i in pats[pat] else ids[i] for i in range(n))
     b = tuple(a[i] for i in perms[k])
     for sib in SIBLINGS[kn]:          # another class of the same arity over the same tuples, hashed first
@@ -280,6 +300,15 @@ def hash_body(kind, pat, k, p, q, idv):
             return f"both unspecified and equal, hashes differ: {t!r} {u!r}"
     if hash(t) != hash(gl.DESC[kn](a, pa)):
         return "hash not deterministic"
+    if pa is not None:
+        # t has been compared and hashed by now: its mirror image must be indistinguishable from a freshly built one
+        ti, fresh = t.invert(), gl.DESC[kn](a, -pa)
+        if not (ti == fresh and fresh == ti):
+            return f"{t!r}.invert() (after == and hash on the original) != freshly built {fresh!r}"
+        if hash(ti) != hash(fresh):
+            return f"{t!r}.invert() (after == and hash on the original) hashes differently from the freshly built {fresh!r}"
+        if (ti == t) != (fresh == gl.DESC[kn](a, pa)):
+            return f"{t!r}.invert() == original is {ti == t}, for freshly built descriptors {fresh == gl.DESC[kn](a, pa)}"
     return None
 
 
@@ -339,14 +368,16 @@ def plan(tier, seed):
             for ci, ch in enumerate(chunks):
                 src, twins = _misc_source(kn, pat, f"p{pi}c{ci}", chunk=ch, with_invert=(ci == 0))
                 units.append(Sym(name=f"misc_{kn}_pat{pi}_{ci}", source=src, twins=twins, timeout=1500, replay="vp.props.C04:sym_replay",
-                                 min_conditions=3 if ci == 0 else 1))
+                                 min_conditions=4 if ci == 0 else 1))
     units.append(Nat(name="tables", func="vp.props.C04:tables"))
-    params = {"kind": (0, 6), "pat": (0, 3 if tier == "quick" else 22), "k": (0, 720), "p": (0, 3), "q": (0, 3), "idv": (0, 1 if tier == "quick" else 3)}
-    pre = ["k < (24, 24, 120, 720, 48, 48)[kind]", "p < (3, 2, 3, 3, 2, 3)[kind]", "q < (3, 2, 3, 3, 2, 3)[kind]"]
+    params = {"kind": (0, 6), "pat": (0, 3 if tier == "quick" else 22), "k": (0, 720), "p": (0, 3), "q": (0, 3), "idv": (0, 7)}
+    pre = ["k < (24, 24, 120, 720, 48, 48)[kind]", "p < (3, 2, 3, 3, 2, 3)[kind]", "q < (3, 2, 3, 3, 2, 3)[kind]", "idv < (5, 5, 6, 7, 6, 6)[kind]"]
     if tier == "quick":
+        pre.append("idv == 1 or (p == q and p < 2 and pat > 0 and kind != 3)")     # other placements of identifier 0 relative to the placeholders: equal-parity pairs only
         pre.append("kind != 3 or (pat == 0 and (k % 7 == 0 or k < 48))")
     else:
         pre.append("kind != 3 or (pat < 4 and k % 3 == 0)")
+        pre.append("idv in (1, 0, 3) or (p == q and pat > 0 and kind != 3)")
         pre.append("kind != 2 or pat < 8")
         pre.append("pat < (11, 11, 16, 22, 11, 11)[kind]")
     units.append(Sel(name="hash", func="vp.props.C04:hash_body", params=params, pre=pre, shard_by=["kind"], timeout=1500,
